@@ -114,6 +114,11 @@ structure Input where
                                -- the server's own result and the kind of typed error it carries; none, one or
                                -- several servers, all errored, all timed out, mixed): logging only - the
                                -- aggregation depends on the per-certificate result alone, must not matter
+  nilEntries : List Nat := []  -- positions of the vector the validator answered with a NIL pointer (no result for that
+                               -- certificate). `vec` says `unknown` there (the generator sees to it): a certificate
+                               -- without a result has an unknown status - the aggregation fails closed on it like on
+                               -- any other unknown, it is never dereferenced. A server result may be nil as well
+                               -- ("nil" in `servers`): logging only, must not matter
   validatorImpl : String       -- "scripted": an instrumented validator answers `vec`; "stock": the notation-core-go
                                -- validator behind an HTTP transport (answering good / revoked / unknown, failing,
                                -- timing out per certificate) produced `vec`, observed in passing: must not matter
